@@ -176,7 +176,9 @@ func (r *vpRunner) vpFire(adv, now int64) {
 }
 
 func (r *vpRunner) maxRefreshCnt() uint {
-	r.gb.mu.RLock()
+	if !r.gb.mu.TryRLock() { // a lock leaked by the code under test must not hang the harness
+		return 1000
+	}
 	defer r.gb.mu.RUnlock()
 	m := uint32(0)
 	for _, ref := range r.gb.scRefList {
@@ -1035,7 +1037,72 @@ func (r *vpRunner) genAndRun(g *vpRng, maxOps int, prop string) {
 		n := g.pick([]int64{256, 257, 300})
 		h.a[0], h.a[1], h.a[7] = n, n, 0
 	}
+	// occasionally many calls in flight on one channel (the default watermark of 100 streams, counters and
+	// load comparisons beyond the handful of calls of an ordinary history)
+	heavy := 0
+	if r.nhist == 7 || r.nhist == 23 || ((prop == "C09" || prop == "C02" || prop == "C03") && (r.nhist == 55 || r.nhist == 90)) {
+		heavy = 1 + g.intn(2)
+		if prop == "C09" {
+			heavy = 1
+		} else if prop == "C03" {
+			heavy = 2
+		}
+		if heavy == 1 { // round-robin BIND over two channels, one of them loaded with bound calls
+			h.a = []int64{2, 2, 0, 0, 0, 0, 1, 0}
+		} else { // growth at the DEFAULT watermark
+			h.a = []int64{1, g.pick([]int64{2, 3}), 0, 0, 0, 0, 0, 0}
+		}
+	}
 	r.start(h)
+	if heavy > 0 {
+		r.apply(vpOp{kind: "R", a: []int64{1, 2}})
+		for id := 0; id < len(r.cc.scs) && !r.dead; id++ {
+			r.apply(vpOp{kind: "C", a: []int64{int64(id), 2}})
+		}
+		last := func() int64 { return int64(len(r.cc.pickers) - 1) }
+		if len(r.cc.pickers) == 0 {
+			r.finish()
+			return
+		}
+		if heavy == 1 {
+			b := len(r.picks)
+			r.apply(vpOp{kind: "P", a: []int64{last(), 1, 1, -1, 0}})
+			if len(r.picks) > b && r.picks[b].placed && !r.dead {
+				r.apply(vpOp{kind: "D", a: []int64{int64(b), 0}, keys: []int{1}})
+			}
+			nload := int(g.pick([]int64{99, 100, 101, 130}))
+			for q := 0; q < nload && !r.dead; q++ {
+				r.apply(vpOp{kind: "P", a: []int64{last(), 2, 1, -1, 0}, keys: []int{1}})
+			}
+			for q := 0; q < 5 && !r.dead; q++ {
+				r.apply(vpOp{kind: "P", a: []int64{last(), 1, 1, -1, 0}})
+			}
+			for q := 0; q < 3 && !r.dead; q++ {
+				r.apply(vpOp{kind: "P", a: []int64{last(), 0, 1, -1, 0}})
+			}
+		} else {
+			nload := int(g.pick([]int64{99, 100, 101, 102}))
+			for q := 0; q < nload && !r.dead; q++ {
+				r.apply(vpOp{kind: "P", a: []int64{last(), 0, 1, -1, 0}})
+			}
+			for id := 0; id < len(r.cc.scs) && !r.dead; id++ {
+				r.apply(vpOp{kind: "C", a: []int64{int64(id), 2}})
+			}
+			for q := 0; q < 6 && !r.dead; q++ {
+				r.apply(vpOp{kind: "P", a: []int64{last(), 0, 1, -1, 0}})
+			}
+			for q := 0; q < 4 && !r.dead && q < len(r.picks); q++ {
+				if r.picks[q].placed && !r.picks[q].fin {
+					r.apply(vpOp{kind: "D", a: []int64{int64(q), 0}})
+				}
+			}
+			for q := 0; q < 3 && !r.dead; q++ {
+				r.apply(vpOp{kind: "P", a: []int64{last(), 0, 1, -1, 0}})
+			}
+		}
+		r.finish()
+		return
+	}
 	if big {
 		r.apply(vpOp{kind: "R", a: []int64{1, 2}})
 		st := g.pick([]int64{1, 2})
@@ -1110,7 +1177,7 @@ func (r *vpRunner) genAndRun(g *vpRng, maxOps int, prop string) {
 				case "C08", "C02":
 					scn = []string{"standin", "standin", "bind", "saturate"}[g.intn(4)]
 				case "C03":
-					scn = []string{"gate", "saturate", "saturate"}[g.intn(3)]
+					scn = []string{"gate", "saturate", "saturate", "chain"}[g.intn(4)]
 				}
 			}
 			switch {
@@ -1170,7 +1237,15 @@ func (r *vpRunner) genAndRun(g *vpRng, maxOps int, prop string) {
 						r.apply(vpOp{kind: "D", a: []int64{int64(before), 2}})
 					}
 					if len(r.cc.scs) > nsc0 && !r.dead {
-						r.apply(vpOp{kind: "C", a: []int64{int64(len(r.cc.scs) - 1), 2}})
+						// the replacement becomes READY, sometimes after failing first; sometimes it only fails
+						// (the refresh stays in flight: no second replacement may appear)
+						c := g.intn(10)
+						if c < 3 {
+							r.apply(vpOp{kind: "C", a: []int64{int64(len(r.cc.scs) - 1), g.pick([]int64{3, 1, 0})}})
+						}
+						if c != 0 && !r.dead {
+							r.apply(vpOp{kind: "C", a: []int64{int64(len(r.cc.scs) - 1), 2}})
+						}
 					}
 				}
 				continue
